@@ -15,7 +15,6 @@ from happysimulator.core.entity import Entity
 from happysimulator.core.event import (
     Event,
     _active_debugger_context,
-    reset_event_counter,
 )
 from happysimulator.core.event_heap import EventHeap
 from happysimulator.core.protocols import Simulatable
@@ -74,7 +73,12 @@ class Simulation:
         fault_schedule: "FaultSchedule | None" = None,
         duration: float | None = None,
     ):
-        reset_event_counter()
+        # The process-global event counter is deliberately NOT reset here: events
+        # built before this constructor (``Event.once(...)`` kick-offs, as in the
+        # examples) would keep indices from before the reset, and their same-instant
+        # order relative to events created afterwards would then depend on how many
+        # events earlier simulations in this interpreter had created.  Only the
+        # relative order of indices matters, so a monotonic counter is enough.
 
         if duration is not None and end_time is not None:
             raise ValueError("Cannot specify both 'duration' and 'end_time'")
